@@ -151,20 +151,24 @@ unsafe fn env_protocol<RW: QueueRW<Pay>>(q: *const MultiQueue<RW, Pay>, kind: u8
         }
         let act = rt::oracle_u8() as u32;
         rt::assume(act < 7 && enabled(act));
-        let done = if act == A_PUBLISH {
+        // the enabled-bit tests come first and are concrete per harness: CBMC then never unfolds the code
+        // of a move the harness does not enable (the add_stream move allocates and copies a list)
+        let done = if enabled(A_PUBLISH) && act == A_PUBLISH {
             env_publish_one(q, n)
-        } else if act == A_CONSUME {
+        } else if enabled(A_CONSUME) && act == A_CONSUME {
             env_consume(q, n)
-        } else if act == A_PIN {
+        } else if enabled(A_PIN) && act == A_PIN {
             env_pin(q, n)
-        } else if act == A_SENDER {
+        } else if enabled(A_SENDER) && act == A_SENDER {
             env_sender(q)
-        } else if act == A_CACHE {
+        } else if enabled(A_CACHE) && act == A_CACHE {
             env_cache(q)
-        } else if act == A_ADDSTREAM {
+        } else if enabled(A_ADDSTREAM) && act == A_ADDSTREAM {
             env_add_stream(q, n)
-        } else {
+        } else if enabled(A_CONSUMER) && act == A_CONSUMER {
             env_consumer()
+        } else {
+            false
         };
         // an action that is not enabled in this state is not a move
         rt::assume(done);
